@@ -466,6 +466,24 @@ class C14(Check):
             out.append({"k": "T", "rows": rows, "perms": [[7, 6, 5, 4, 3, 2, 1, 0], [2, 1, 3, 0, 6, 7, 5, 4]]})
         for _ in range(400 if quick else 12000):
             out.append(self.gen_table())
+        # edge / malformed stream: empty table, all-zero tables, only the empty set, repeated names in a
+        # row, repeated keys, names with punctuation, digits first, blanks and non-ASCII letters
+        odd = ["x-y", "p.q", "1st", "a b", "\u00e9", "Z", "a", "_"]
+        out.append({"k": "T", "rows": [], "perms": [[]]})
+        out.append({"k": "T", "rows": [[[], 5]], "perms": [[0]]})
+        out.append({"k": "T", "rows": [[["A"], 0], [["B"], 0]], "perms": [[1, 0]]})
+        out.append({"k": "T", "rows": [[["A", "A", "B"], 2], [["B", "A"], 3], [["B"], 1]], "perms": [[2, 1, 0], [1, 2, 0]]})
+        for _ in range(40 if quick else 600):
+            n = self.rng.randint(1, 6)
+            rows = []
+            for _ in range(n):
+                k = self.rng.randint(0, 3)
+                rows.append([[self.rng.choice(odd) for _ in range(k)], self.rng.choice([0, 0, 1, 2, 3, 24])])
+            perms = [list(reversed(range(n)))]
+            p2 = list(range(n))
+            self.rng.shuffle(p2)
+            perms.append(p2)
+            out.append({"k": "T", "rows": rows, "perms": perms})
         for _ in range(14 if quick else 260):
             out.append(self.gen_codebase())
         for _ in range(150 if quick else 3000):
